@@ -1056,7 +1056,8 @@ fn wake_send_waiters<T>(waiters: &mut LinkedList<SendWaitQueueEntry<T>>) {''',
     {'name': 'fixedbuf-can-push-ignores-cap', 'file': 'src/buffer/ring_buffer.rs',
      'old': '''            self.buffer.len() != self.cap''',
      'new': '''            self.buffer.len() != self.buffer.capacity()''',
-     'expect': {'C19': ['C19.R4'], 'C18': ['C18.B3']}},
+     # (not a C18 violation: push_back reallocates only at len == capacity(), which this guard excludes)
+     'expect': {'C19': ['C19.R4']}},
     # ---------------------------------------------------------------- C20
     {'name': 'list-remove-last-keeps-prev-link', 'file': 'src/intrusive_double_linked_list.rs',
      'old': '''            last_ref.prev = None;
